@@ -135,7 +135,7 @@ Theorem C11_choices_13 :
   forall k ss h f, server13 k ss h = ROk f ->
     first_common (filter known_suite (h_suites h)) ss = Some (f_suite f) /\
     first_common (k_curves k) (match h_groups h with Some g => g | None => [] end) = Some (f_group f) /\
-    select_sig true (inter (filter sig_known (h_sigs h)) (k_sigs k)) (c_key (k_cfg k)) = Some (f_sig f).
+    select_sig true (inter (filter sig_known (h_sigs h)) (k_sigs k)) (presented_key (k_cfg k) h) = Some (f_sig f).
 Proof. exact server13_choices. Qed.
 Print Assumptions C11_choices_13.
 
@@ -219,6 +219,91 @@ Theorem C11_client_signature_former_witness :
   exists o, negotiate w_csig_c w_csig_s false = Some (Ok o) /\ o_csig o = 1283 /\ sig_allowed w_csig_c (o_csig o).
 Proof. exact client_signature_former_witness. Qed.
 Print Assumptions C11_client_signature_former_witness.
+
+(* "fix: check the server's ALPN and key-exchange group against the client's offer": whatever answer the DTLS 1.2
+   client is shown - [f] is ARBITRARY, a rogue or steered server - every parameter it reports comes from its OWN
+   lists (suite, ALPN protocol, SRTP profile, signature scheme, ECDHE group), and a client that requires extended
+   master secret has it *)
+Theorem C11_client_within_own_policy_against_any_server :
+  forall ck sk cs h f o,
+    client12 ck sk cs h f = ROk o ->
+    In (o_suite o) cs /\
+    (o_alpn o <> 0 -> In (o_alpn o) (c_alpn (k_cfg ck))) /\
+    (o_srtp o <> 0 -> In (o_srtp o) (c_srtp (k_cfg ck))) /\
+    (o_sig o <> 0 -> In (o_sig o) (k_sigs ck)) /\
+    (o_resumed o = false -> s_ecdhe (o_suite o) = true ->
+       In (o_group o) (k_curves ck) /\ o_group o <> g11_curve_mlkem) /\
+    (c_ems (k_cfg ck) = g11_ems_require -> o_ems o = true).
+Proof. exact client12_within_own_policy. Qed.
+Print Assumptions C11_client_within_own_policy_against_any_server.
+
+(* "fix: negotiate from the ClientHello that the Finished messages cover": with hello verification the server's
+   answer is the answer to the hello that echoes the cookie, whatever the first hello [h1] was made to say ... *)
+Theorem C11_answer_is_for_the_verified_hello :
+  forall k ss h1 h2 r f, server12_verified k ss h1 h2 r = ROk f -> server12 k ss h2 r = ROk f.
+Proof. exact server12_verified_final. Qed.
+Print Assumptions C11_answer_is_for_the_verified_hello.
+
+Theorem C11_untouched_first_hello :
+  forall k ss h r, server12_verified k ss h h r = server12 k ss h r.
+Proof. exact server12_verified_same. Qed.
+Print Assumptions C11_untouched_first_hello.
+
+(* ... so an association whose FIRST ClientHello was rewritten on path (supported_groups, ALPN offer,
+   extended_master_secret, server_name), if it completes, completes exactly as the untouched one *)
+Theorem C11_first_hello_steering_harmless :
+  forall ck sk seeded t o,
+    t_sh_alpn t = 0 ->
+    negotiate12_steered ck sk seeded true t = Ok o ->
+    negotiate12_steered ck sk seeded true no_steering = Ok o.
+Proof. exact first_hello_steering_harmless. Qed.
+Print Assumptions C11_first_hello_steering_harmless.
+
+Theorem C11_unsteered_is_negotiate :
+  forall ck sk seeded hv, stack_of ck = Only12 -> stack_of sk = Only12 ->
+    negotiate12_steered ck sk seeded hv no_steering = negotiate_conn ck sk seeded.
+Proof. exact negotiate12_unsteered. Qed.
+Print Assumptions C11_unsteered_is_negotiate.
+
+(* ---- "the cipher suite fits the server's key type": true for the key the suite FILTER used (clause pol_suite)
+   and, with a single certificate, for the certificate presented ... *)
+Theorem C11_suite_fits_presented_key_single_certificate :
+  forall c s seeded o,
+    negotiate c s seeded = Some (Ok o) -> c_key2 s = 0 -> fits_key (o_server_key o) (o_suite o) = true.
+Proof. exact suite_fits_presented_key_single_certificate. Qed.
+Print Assumptions C11_suite_fits_presented_key_single_certificate.
+
+(* ... refuted with two certificates selected by SNI (HandshakeContext filters with the default certificate,
+   flight4Generate sends the one the server name selects): ECDHE_ECDSA suite, RSA certificate, RSA signature *)
+Theorem C11_suite_does_not_fit_presented_certificate_refuted :
+  exists c s o, negotiate c s false = Some (Ok o) /\
+                o_server_key o = 3 /\ fits_key (o_server_key o) (o_suite o) = false /\
+                sig_fits false 3 (o_sig o) = true.
+Proof. exact suite_does_not_fit_presented_certificate_refuted. Qed.
+Print Assumptions C11_suite_does_not_fit_presented_certificate_refuted.
+
+Theorem C11_refused_although_suite_fits_sni_certificate_refuted :
+  exists c s x, negotiate c s false = Some (Fail Server g11_alert_insufficient_security) /\
+                suite_enabled c x /\ suite_enabled s x /\ c_sni c = true /\ fits_key (c_key2 s) x = true.
+Proof. exact refused_although_suite_fits_sni_certificate_refuted. Qed.
+Print Assumptions C11_refused_although_suite_fits_sni_certificate_refuted.
+
+(* ---- "a side that requires extended master secret never completes without it": holds for every association
+   that is not a resumption ([session_ems o b] : the master secret in force has the EMS property; b = that of the
+   association that stored the session) ... *)
+Theorem C11_ems_required_holds_without_resumption :
+  forall c s seeded o b,
+    negotiate c s seeded = Some (Ok o) -> o_resumed o = false ->
+    requires_ems c = true \/ requires_ems s = true -> session_ems o b = true.
+Proof. exact ems_required_holds_without_resumption. Qed.
+Print Assumptions C11_ems_required_holds_without_resumption.
+
+(* ... refuted for resumptions: Session{ID, Secret} has no EMS flag, the decision to resume does not depend on it *)
+Theorem C11_ems_required_resumes_session_without_ems_refuted :
+  exists c s o, negotiate c s true = Some (Ok o) /\ requires_ems s = true /\ o_resumed o = true /\
+                o_ems o = true /\ session_ems o false = false.
+Proof. exact ems_required_resumes_session_without_ems_refuted. Qed.
+Print Assumptions C11_ems_required_resumes_session_without_ems_refuted.
 
 (* ---- still refuted *)
 Theorem C11_alpn_disjoint_completes_on_dtls13_refuted :
